@@ -23,6 +23,8 @@ ASSUMPTIONS = [
     "clap's precedence 'flag over DIVAN_* variable' is assumed in the model of the runner level and exercised end to end",
     "the per-benchmark option table of harness/hx-select/src/e2e.rs is mirrored by hand in tools/props/c15.py",
     "available parallelism is probed from the binary itself and handed to the model as a parameter",
+    "skip_ext_time end to end: a 50 ms sleeping generator against a 100 ms budget (6 samples iff external time is skipped, 1-3 "
+    "otherwise); sleeps only overshoot, so the classification does not depend on machine speed",
 ]
 TRUSTED = ["harness/hx-select/src/opts.rs re-implements the two match statements of run_tree/run_bench_entry around the crate's "
            "overwrite for the function-level stream; the real descent is exercised by the end-to-end stream"]
@@ -108,6 +110,9 @@ OPT_TABLE = {
     "outer::loop::inherit": ["-", "-", "-", "sc=2,ss=3", "-"],
     "where::inherit": ["-", "-", "sc=1,ss=1,ig=1", "-"],
     "where::unignored": ["-", "-", "sc=1,ss=1,ig=1", "ig=0"],
+    "ign_reason": ["-", "-", "sc=1,ss=1,ig=1"],
+    "gi::inherit": ["-", "-", "sc=1,ss=1,ig=1", "-"],
+    "gi::unignored": ["-", "-", "sc=1,ss=1,ig=1", "ig=0"],
     "g1::inherit": ["-", "-", G1, "-"],
     "g1::size5": ["-", "-", G1, "ss=5"],
     "g1::g2::inherit": ["-", "-", G1, G2, "-"],
@@ -288,6 +293,92 @@ def wildcard_eq(impl, model):
     return re.fullmatch(rx, i) is not None
 
 
+# ---------------------------------------------------------------------------
+# end to end, coarse timing: skip_ext_time and the runner-only bytes_format (mod tim of e2e.rs)
+# ---------------------------------------------------------------------------
+TROOT = "hx_select_e2e::tim::"
+TIMING = "mx=100000000,sc=6,ss=1"
+TIM_TABLE = {
+    "ext": ["-", "-", "se=1," + TIMING],
+    "noext": ["-", "-", TIMING],
+    "gse::inherit": ["-", "-", "se=1," + TIMING, "-"],
+    "gse::off": ["-", "-", "se=1," + TIMING, "se=0"],
+}
+TIM_B = " ".join(TROOT + p + "|" + "|".join(l) for p, l in sorted(TIM_TABLE.items()))
+TIM_FIXED = [
+    "s0 #R F: E: P: Q: #V eq",                      # nothing at run time: the attribute must win
+    "s1 #R F:se=1 E: P: Q: #V bare",                # --skip-ext-time
+    "s2 #R F:se=1 E: P: Q: #V eq",                  # --skip-ext-time=true
+    "s3 #R F:se=0 E: P:bf=1 Q: #V eq",              # --skip-ext-time=false; builder bytes_format(Binary) before parsing
+    "s4 #R F: E:se=1,bf=1 P: Q: #V eq",             # DIVAN_SKIP_EXT_TIME=true, DIVAN_BYTES_FORMAT=binary
+    "s5 #R F:bf=0 E:se=0 P:bf=1 Q: #V eq",          # env false; flag decimal over builder binary
+    "s6 #R F: E: P:se=0 Q:bf=1 #V eq",              # builder before parsing
+    "s7 #R F:se=0 E:se=1 P: Q:se=1 #V eq",          # builder after parsing beats the flag
+    "s8 #R F:se=1 E:se=0 P:se=0 Q: #V bare",        # flag beats env and builder-before
+    "s9 #R F:bf=1 E:bf=0 P: Q:bf=0 #V eq",          # bytes_format: builder-after over flag over env
+    "s10 #R F: E: P:bf=1,se=0 Q: #V eq",            # only builder calls before parsing: nothing on the command line may undo them
+]
+TF = {"1": "true", "0": "false"}
+BF = {"1": "binary", "0": "decimal"}
+
+
+def gen_tim(rng, k):
+    src = {"F": [], "E": [], "P": [], "Q": []}
+    for f in ("se", "bf"):
+        for w in rng.choice(["", "F", "E", "P", "Q", "FE", "PF", "QF", "PE"]):
+            src[w].append(f"{f}={rng.randrange(2)}")
+    return f"r{k} #R " + " ".join(f"{w}:" + ",".join(src[w]) for w in "FEPQ") + " #V " + rng.choice(["bare", "eq"])
+
+
+def tim_cmd(case):
+    args, env, builder = ["--bench", "^hx_select_e2e::tim"], {"HX_SLEEP_MS": "50"}, []
+    bare = case.split(" #V ")[1].split()[0] == "bare"
+    tail = []
+    for f, v in spec_of(case, "F"):
+        if f == "se":
+            if bare and v == "1":
+                tail = ["--skip-ext-time"]       # without a value; last, so that it cannot take the filter for its value
+            else:
+                args.append("--skip-ext-time=" + TF[v])
+        else:
+            args += ["--bytes-format", BF[v]]
+    for f, v in spec_of(case, "E"):
+        env["DIVAN_SKIP_EXT_TIME" if f == "se" else "DIVAN_BYTES_FORMAT"] = TF[v] if f == "se" else BF[v]
+    for w, pre in (("P", "pre:"), ("Q", "post:")):
+        for f, v in spec_of(case, w):
+            builder.append(pre + ("skip_ext_time=" + TF[v] if f == "se" else "bytes_format=" + BF[v]))
+    env["HX_BUILDER"] = ";".join(builder)
+    return args + tail, env
+
+
+def tim_impl_runner(st, hbin):
+    lines = []
+    for case in st.cases:
+        args, env = tim_cmd(case)
+        rc, out, err = E.run(hbin, args, env, timeout=60)
+        if rc != 0:
+            lines.append(f"crash rc={rc} {err.strip().splitlines()[-1:]}")
+            continue
+        obs = parse_bench(out)
+        ents = []
+        for p in sorted(TIM_TABLE):
+            o = obs.get(TROOT + p)
+            if not o or not o["rows"]:
+                ents.append(TROOT + p + "=missing")
+                continue
+            n = int(o["rows"][0][1])
+            # 6 samples: external time was skipped; 1-3: the 100 ms budget was used up by the 50 ms generator
+            ents.append(TROOT + p + "=" + ("S" if n == 6 else "N" if 1 <= n <= 3 else f"odd-{n}-samples"))
+        brow = [l for l in out.splitlines() if "B/s" in l]
+        bf = "none" if not brow else "bin" if "iB/s" in brow[0] else "dec"
+        lines.append("T " + " ".join(ents) + f" #Z {bf} #B {TIM_B}")
+    return lines
+
+
+def tim_model_input(case, impl):
+    return case + " #B " + TIM_B
+
+
 def streams(tier, rng):
     n = 2500 if tier == "quick" else 60000
     ov, ov_hist = corpus_lines("C15-ovw"), {}
@@ -312,6 +403,8 @@ def streams(tier, rng):
             if spec_of(c, w):
                 bump(op_hist, "source:" + nm)
 
+    tm = corpus_lines("C15-tim") + TIM_FIXED + [gen_tim(rng, k) for k in range(4 if tier == "quick" else 120)]
+
     def nt_into(c, m):
         xs = c.split()[1:]
         return c.startswith("v") and (len(set(xs)) < len(xs) or xs != sorted(xs, key=int))
@@ -323,6 +416,11 @@ def streams(tier, rng):
                impl_runner=opt_impl_runner(ctx), model_input=opt_model_input, compare=wildcard_eq, hist=op_hist,
                describe="hx-select-e2e --bench '^hx_select_e2e::opt' with the runner level set by flags / DIVAN_* / builder calls; "
                         "per benchmark: (ignored) mark, t=N branches, samples and iters columns, throughput lines, RAN call count"),
+        Stream("e2e-skip-ext-time-bytes-format", "tim", tm, nontrivial=lambda c, m: any(spec_of(c, w) for w in "FEPQ"),
+               impl_runner=tim_impl_runner, model_input=tim_model_input, compare=lambda i, m: i.split(" #B ")[0] == m,
+               describe="hx-select-e2e --bench '^hx_select_e2e::tim' (50 ms sleeping input generator, 100 ms budget, 6 samples "
+                        "requested: 6 samples iff skip_ext_time is in force) with skip_ext_time / bytes_format set by flag (bare and "
+                        "=value), DIVAN_* variable, builder before/after parsing; bytes row unit KiB/MiB vs KB/MB"),
     ]
 
 
@@ -340,8 +438,8 @@ MANIFEST = {
     "note": "Trusted: Coq kernel, extraction, OCaml driver, hooks (options_overwrite, options_counter, run_bencher), harness hx-select "
             "(its ovw mode re-implements the two small matches of run_tree/run_bench_entry around the real overwrite; the real descent is "
             "covered end to end), the hand-mirrored option table of the e2e binary, C03's samples formula for turning effective options "
-            "into visible numbers, clap's flag-over-environment precedence (modelled as assumed, exercised end to end). min_time and "
-            "skip_ext_time are checked at function level only (not observable end to end without timing).",
+            "into visible numbers, clap's flag-over-environment precedence (modelled as assumed, exercised end to end). min_time is "
+            "checked at function level only; skip_ext_time is made visible end to end by coarse timing (50 ms generator vs 100 ms budget).",
     "technique": "machine-checked proof in Coq (induction over the option stack with a field-wise homomorphism lemma, insertion-sort/dedup "
                  "lemmas) + differential correspondence + end-to-end runs of a real benchmark binary",
 }
